@@ -77,7 +77,13 @@ impl Property for Occurrences {
         }
         let cmd = match build_checked(&case.spec) {
             Built::Ok(c) => c,
-            Built::Invalid(_) => return Verdict::Discard("invalid-config"),
+            // conventional trees are valid by construction: the library's configuration check refusing one is a failure
+            Built::Invalid(p) => {
+                return Verdict::fail(
+                    "occurrences:valid-definition-refused",
+                    format!("a definition that is valid by construction is refused by the configuration check at {}:{}: {}", p.file, p.line, p.message),
+                )
+            }
             Built::Panic(p) => return Verdict::Fail(Failure::from_panic(&p)),
         };
         let Some(expected) = expect_seq(&case.spec, &case.inv, &case.cluster_entry) else {
